@@ -27,6 +27,7 @@ mod c19;
 mod goscope;
 mod c13;
 mod c16;
+mod c16e;
 mod c18;
 mod c14;
 mod dce;
@@ -72,6 +73,8 @@ fn main() {
         "c19inst" => c19::main_inst(&args),
         "c13" => c13::main(&args),
         "c16" => c16::main(&args),
+        "c16e" => c16e::main(&args),
+        "ep" => c16e::probe(&args),
         "c18" => c18::main(&args),
         "c14" => c14::main(&args),
         "dce" => dce::main(&args),
